@@ -366,7 +366,7 @@ class SSocket:
         self.write_caps = None     # list of caps per send call (cycled)
         self.wi = 0
         self.tls = False
-        self.tls_record = None     # FakeTLS: decrypted bytes not yet handed out (pending())
+        self.records = []          # TLS: records that have arrived on the raw stream but are not decrypted yet
         self.id = len(net.sockets)
         net.sockets.append(self)
         self.last_exc = None
@@ -384,10 +384,24 @@ class SSocket:
         return 1000 + self.id
 
     def readable(self):
+        """what select() on the descriptor reports: for TLS only the raw stream counts, bytes already
+        decrypted inside the TLS object are invisible to it (that is what pending() is for)"""
+        if self.tls:
+            return bool(self.records) or self.eof or self.reset or self.closed
         return bool(self.buf) or self.eof or self.reset or self.closed
+
+    def has_data(self):
+        return bool(self.buf) or bool(self.records) or self.eof or self.reset or self.closed
 
     def pending(self):
         return len(self.buf) if self.tls else 0
+
+    def feed(self, data):
+        """bytes arriving from the peer in one segment (= one TLS record when wrapped)"""
+        if self.tls:
+            self.records.append(bytes(data))
+        else:
+            self.buf += data
 
     def _raise(self, e):
         self.last_exc = e
@@ -409,13 +423,15 @@ class SSocket:
         if self.closed:
             self.sched.ev("tbad", cid=self.cid, what="recv after close")
             self._raise(OSError(errno.EBADF, "Bad file descriptor"))
-        if not self.readable():
-            ok = self.sched.block(self.readable, self.to, what="recv")
+        if not self.has_data():
+            ok = self.sched.block(self.has_data, self.to, what="recv")
             if not ok:
                 self.sched.ev("ttimeout", cid=self.cid, req=min(n, 2000000000))
                 self._raise(_socket.timeout("timed out"))
         if self.closed:
             self._raise(OSError(errno.EBADF, "Bad file descriptor"))
+        if self.tls and not self.buf and self.records:
+            self.buf += self.records.pop(0)        # a whole record is decrypted at once
         if self.buf:
             k = n if self.read_cap is None else min(n, self.read_cap)
             r = bytes(self.buf[:k])
@@ -443,6 +459,10 @@ class SSocket:
         acc = d[:k]
         self.sched.ev("tsend", cid=self.cid, offered=list(d) if len(d) <= 300 else list(d[:300]), offered_len=len(d), accepted=k)
         self.net.client_wrote(self, acc)
+        delay = getattr(self.net, "send_delay", 0)
+        if delay:
+            # the writing thread is held up (descheduled / slow system call) while the bytes are already on their way
+            self.sched.block(lambda: False, delay, what="send returns late")
         return k
 
     def shutdown(self, how=None):
